@@ -123,6 +123,69 @@ static void producer(void)
 		}
 }
 
+/* producer, one-shot calls on constant runs (00 / FF): the compressor has a dedicated path for them, taken or refused depending
+ * on the output space; EVERY avail_out from 0 to the bound is tried and every successful call must carry the right trailer */
+static void producer_runs(void)
+{
+	static const int gzs[] = { IGZIP_GZIP, IGZIP_GZIP_NO_HDR, IGZIP_ZLIB, IGZIP_ZLIB_NO_HDR };
+	static const int lens[] = { 7, 8, 9, 12, 16, 18, 19, 22, 23, 24, 100, 1000, 4096, 5000 };
+	static const int cpus[] = { CPU_BASE, CPU_AVX2, CPU_AVX512G2 };
+	char key[300], why[256];
+	for (unsigned li = 0; li < sizeof lens / sizeof lens[0]; li++)
+		for (int pi = 0; pi < 3; pi++)
+			for (int level = 0; level <= 3; level++)
+				for (int gi = 0; gi < 4; gi++)
+					for (int huff = 0; huff < 2; huff++) {
+						if (huff && level)
+							continue;
+						if (!v_mine(unit++))
+							continue;
+						if (nfail > 40 || v_deadline_hit())
+							return;
+						int len = lens[li];
+						memset(IN, pi == 0 ? 0x00 : 0xff, len);
+						if (pi == 2 && len > 8)
+							IN[len - 1] = 'x'; /* a run followed by other data */
+						size_t bound = stateless_bound(len, gzs[gi]);
+						cpu_set_level(cpus[(li + level + gi) % 3]);
+						for (size_t ao = 0; ao <= bound + 2; ao++) {
+							struct isal_zstream *s = g_alloc(sizeof *s, G_END);
+							uint8_t *lb = level ? g_alloc(lvl_min[level], G_END) : NULL, *out = g_alloc(ao, G_END);
+							int r = -999;
+							if (V_TRY()) {
+								isal_deflate_stateless_init(s);
+								s->level = level; s->level_buf = lb; s->level_buf_size = level ? lvl_min[level] : 0;
+								s->gzip_flag = gzs[gi];
+								if (huff)
+									isal_deflate_set_hufftables(s, NULL, IGZIP_HUFFTABLE_STATIC);
+								s->next_in = IN; s->avail_in = len; s->end_of_stream = 1; s->next_out = out; s->avail_out = ao;
+								r = isal_deflate_stateless(s);
+								V_END();
+							}
+							v_eval();
+							snprintf(key, sizeof key, "producer one-shot run level=%d wrapper=%s tables=%s cpu=%s input=%s:%d avail_out=%zu (bound %zu)", level, gz_name[gzs[gi]], huff ? "static" : "default",
+								 cpu_level_name[cpus[(li + level + gi) % 3]], pi == 0 ? "zero" : pi == 1 ? "ff" : "ff+x", len, ao, bound);
+							if (r == COMP_OK) {
+								size_t ol = ao - s->avail_out;
+								uint32_t want = (gzs[gi] == IGZIP_GZIP || gzs[gi] == IGZIP_GZIP_NO_HDR) ? ri_crc32(0, IN, len) : ri_adler32(1, IN, len);
+								if (!verify_deflate_output(out, ol, gzs[gi], IN, len, 0, 0, NULL, 0, why, sizeof why)) {
+									v_violation(key, "COMP_OK but: %s", why);
+									nfail++;
+								} else if (vs_res.trailer_sum != want) {
+									v_violation(key, "stored checksum %08x != reference %08x", vs_res.trailer_sum, want);
+									nfail++;
+								}
+								v_count("producer_run_trailers_verified", 1);
+							} else if (r != STATELESS_OVERFLOW) {
+								v_violation(key, "returned %d", r);
+								nfail++;
+							}
+							g_reset();
+						}
+						v_nontrivial(v_mix(0x9a17 + li, pi * 64 + level * 16 + gi * 2 + huff));
+					}
+}
+
 /* ---- checksum arithmetic boundaries: every position of a payload whose running Adler-32 halves pass through
  * 0, 1, 65519, 65520 is used as the boundary of an update (output split for the verifier, input split + flush for the
  * producer), so that every internal representation of the running sum (A, A-1, deferred modulo) is seen at a call boundary. */
@@ -441,8 +504,10 @@ int main(int argc, char **argv)
 		every = v_thorough ? 20 : 100;
 		gs_family_tokens(2, 1, mine, &idx, seed_cb, &every);
 	}
-	if (!v_part || !strcmp(v_part, "producer"))
+	if (!v_part || !strcmp(v_part, "producer")) {
 		producer();
+		producer_runs();
+	}
 	if (!v_part || !strcmp(v_part, "boundary"))
 		boundary();
 	if (v_thorough && (!v_part || !strcmp(v_part, "isize")) && v_shard == 0)
